@@ -283,6 +283,57 @@ def check_n2_independence(rc, det, env, acc):
     compare_laws("N_inputs_cycles_not_independent", two, want, case, acc)
 
 
+def check_detector_history(rc, env, acc, depth):
+    """One long-lived Sampler whose detector is edited IN PLACE between sampling calls: after every history
+    of edits/draws the exact law of sample_N_inputs(1) must be the reference law for the CURRENT settings."""
+    e, d = round(env.R[1], 3), round(env.L[1] / 3, 3)
+    alpha = [("efficiency", 1), ("efficiency", e), ("p_dark", 0), ("p_dark", d), ("photon_counting", True),
+             ("photon_counting", False), ("draw",)]
+    c, _ = build(rc, env)
+    hout = c.heralds["output"]
+    hmodes = sorted(hout)
+    base = emu.Sampler(c, lw.State(list(rc["input"])))
+    pd = {tuple(k.s): float(v) for k, v in base.probability_distribution.items()}
+    tot = sum(pd.values())
+    pd = {k: v / tot for k, v in pd.items()}
+    ref_cache = {}
+
+    def reference(eff, pdark, pc):
+        key = (eff, pdark, pc)
+        if key not in ref_cache:
+            want = {}
+            for st, p in pd.items():
+                for o, q in ref_noise.detect(st, eff, pdark, pc).items():
+                    if any(o[m] != n for m, n in hout.items()):
+                        k = ()
+                    else:
+                        k = ((ref_fock.remove_modes(o, hmodes), 1),)
+                    want[k] = want.get(k, 0.0) + p * q
+            ref_cache[key] = want
+        return ref_cache[key]
+
+    for dd in range(1, depth + 1):
+        for hist in itertools.product(alpha, repeat=dd):
+            if hist[-1][0] == "draw" or not any(h[0] == "draw" for h in hist):
+                continue                                   # interesting: a draw happened, then an in-place edit
+            det = emu.Detector()
+            s = emu.Sampler(c, lw.State(list(rc["input"])), detector=det)
+            for op in hist:
+                if op[0] == "draw":
+                    s.sample_N_inputs(3, seed=1); s.sample()
+                else:
+                    setattr(det, op[0], op[1])
+            if max(hout.values(), default=0) > 1 and not det.photon_counting:
+                continue
+            got, _ = law(lambda: result_key(s.sample_N_inputs(1, seed=3)), acc)
+            case = {"scenario": "detector_history", "recipe": rc["name"], "n": rc["n"], "ops": rc["ops"],
+                    "input": rc["input"], "history": hist, "seed": env.seed}
+            compare_laws("law_after_in_place_detector_edit", got,
+                         reference(det.efficiency, det.p_dark, det.photon_counting), case, acc)
+            acc.state("dethist", rc["name"], det.efficiency, det.p_dark, det.photon_counting, hist[-1])
+            acc.nontriv("dethist", rc["name"], hist)
+
+
 def check_quick_sampler(rc, pc, plabel, pfac, env, acc):
     c, _ = build(rc, env)
     nv = c.input_modes
@@ -353,13 +404,15 @@ def run(tier, seed):
             for plabel, pfac in post_selections(c.input_modes):
                 jobs.append(("qs", rc, pc, plabel))
         jobs.append(("seeds", rc))
+    jobs.append(("dethist", by["u3_herald1"], 3))
+    jobs.append(("dethist", by["u2_bunch"], 3 if tier == "quick" else 4))
     # two clock cycles: path count is the square of the N=1 count, so the richest detector only on the
     # smallest circuits
     for rc in (by["u2_bunch"], by["u3_herald1"]) if tier == "quick" else [c for c in circs if sum(c["input"]) <= 2]:
         jobs.append(("n2", rc, dets[2]))
     for rc in (by["u2_bunch"],) if tier == "quick" else (by["u2_bunch"], by["sub_anc"], by["u3_herald_io"]):
         jobs.append(("n2", rc, dets[7]))
-    jobs.sort(key=lambda j: 0 if j[0] == "n2" else 1)     # heavy jobs first, one per shard
+    jobs.sort(key=lambda j: 0 if j[0] in ("n2", "dethist") else 1)     # heavy jobs first, one per shard
 
     def shard_fn(js):
         acc = kernel.Acc()
@@ -373,6 +426,8 @@ def run(tier, seed):
                 check_quick_sampler(rc, j[2], j[3], pmap_[j[3]], env, acc)
             elif j[0] == "seeds":
                 check_seeds(rc, env, acc)
+            elif j[0] == "dethist":
+                check_detector_history(rc, env, acc, j[2])
             else:
                 check_n2_independence(rc, j[2], env, acc)
         if js and js[0][0] == "cfg":
@@ -408,6 +463,9 @@ def replay(w, acc):
     rc = {"name": case["recipe"], "n": case["n"], "ops": [_tup(o) for o in case["ops"]], "input": tuple(case["input"])}
     c, _ = build(rc, env)
     pm = dict(post_selections(c.input_modes))
+    if case.get("scenario") == "detector_history":
+        check_detector_history(rc, env, acc, len(case["history"]))
+        return
     if case.get("object") == "QuickSampler":
         check_quick_sampler(rc, case["photon_counting"], case["post_selection"], pm[case["post_selection"]], env, acc)
     elif "method" in case:
